@@ -217,10 +217,10 @@ EXEC = [
     ("read_many_kw", "read(unit = {d1}, fmt = '(a)', iostat = {n1}, end = {L1}, err = {L2}) {n2}\n{L1} continue\n{L2} continue", "fix x"),
     ("read_nml", "read({d1}, nml = {n1})", "fix x"),
     ("read_rec", "read({d1}, rec = {n1}) {n2}", "fix x"),
-    ("print_label", "print {L1}, {n1}\n{L1} format (a)", "fix x"),
+    ("print_label", "print {L1}, {n1}\n{L1} format (i{d1})", "fix x"),
     ("print_only", "print *", "fix x"),
     ("write_many_kw", "write(unit = {d1}, fmt = '(a)', iostat = {n1}, err = {L1}, advance = 'no') {n2}\n{L1} continue", "fix x"),
-    ("write_label_fmt", "write({d1}, {L1}) {n1}\n{L1} format (a)", "fix x"),
+    ("write_label_fmt", "write({d1}, {L1}) {n1}\n{L1} format (i{d2})", "fix x"),
     ("write_internal", "write({n1}, '(i{d1})') {n2}", "fix x"),
     ("open_reordered", "open(file = '{s1}', unit = {d1}, action = 'read', iostat = {n1})", "fix x"),
     ("open_positional", "open({d1}, file = '{s1}', form = 'unformatted', access = 'direct', recl = {d2})", "fix x"),
